@@ -151,7 +151,7 @@ func checkC19(p *Prog, r *Result, tier string) {
 	r.Rule("C19.R2", "unchecked type assertions on the data path (decoded file content, directory entries, search arguments) are either preceded by a comma-ok assertion of the same value and type, or vetted with a stated reason", 4)
 	r.Rule("C19.R3", "bounds: every index or slice expression on the data path that the gc compiler cannot prove in range (its own bounds-check-elimination pass is the oracle) is dominated by a length test of the same container, or vetted with a stated reason", 6)
 	r.Rule("C19.R4", "nullable decoded pointers are checked before use: the loader tests the decoded schema for nil; the decoders test the elements of the decoded field-index map and of the decoded entry slice for nil", 3)
-	r.Rule("C19.R7", "reflect on the search arguments: on the functions reachable from the search dispatcher (the deep clone of stored objects excepted) every reflect.Value.Interface() is unreachable without a validity test of its receiver (CanInterface / CanSet / IsValid on the same value, or IsNil known false on the value it is the Elem of); paths are enumerated over the CFG with the branch facts (kind comparisons of one value are correlated)", 2)
+	r.Rule("C19.R7", "reflect on the search arguments: on the functions reachable from the search dispatcher (the deep clone of stored objects excepted) every reflect.Value.FieldByName() is unreachable unless the kind of its receiver was compared with reflect.Struct, and every reflect.Value.Interface() is unreachable without a validity test of its receiver (CanInterface / CanSet / IsValid on the same value, or IsNil known false on the value it is the Elem of); paths are enumerated over the CFG with the branch facts (kind comparisons of one value are correlated)", 2)
 	checkReflectInterface(p, r, "C19.R7")
 	r.Rule("C19.R8", "the decoded index is tied to the descriptors before publication: the schema control (or a helper it calls) looks up the field index of every indexed descriptor and compares its cast with the descriptor's; the comparators' and the insertion's type assertions rely on that cast", 1)
 	checkIndexMatchesDescriptors(p, r, "C19.R8")
@@ -704,6 +704,34 @@ func checkReflectInterface(p *Prog, r *Result, rule string) {
 	}
 	if n == 0 {
 		r.Report(rule, "-", "no reflect Interface() on the search path", Discharged, "", "", nil, true)
+	}
+	// FieldByName panics on anything but a struct: the receiver's kind must have been compared with reflect.Struct
+	structKind := fmt.Sprint(int(reflect.Struct))
+	for fn := range reachFrom(p, roots) {
+		if !inSod(p, fn) || excluded[fn] {
+			continue
+		}
+		for _, b := range fn.Blocks {
+			for _, in := range b.Instrs {
+				call, ok := isReflectMethod(valueOf(in), "FieldByName")
+				if !ok {
+					continue
+				}
+				recv := call.Call.Args[0]
+				unsafePath := false
+				for _, f := range reflectPaths(fn, b, isReflectMethod) {
+					if !f[rfKey("kind", recv, structKind)] {
+						unsafePath = true
+					}
+				}
+				construct := "reflect FieldByName() on " + reflectDesc(recv) + " known to be a struct"
+				if unsafePath {
+					r.Report(rule, ownerName(p, fn), construct, Violated, "reflect.Value.FieldByName is reachable for a value whose kind was not compared with reflect.Struct: a field path that goes on after a scalar (or a pointer to one) panics instead of being reported as an unknown field", p.Pos(in.Pos()), nil, true)
+				} else {
+					r.Report(rule, ownerName(p, fn), construct, Discharged, "", p.Pos(in.Pos()), nil, true)
+				}
+			}
+		}
 	}
 }
 
